@@ -55,6 +55,22 @@ IntroGraph(S) == [description |-> S.description, queryType |-> RootRef(S, S.quer
                   types |-> {TypeG(S, S.types[i]) : i \in 1..Len(S.types)},
                   directives |-> {DirectiveG(S, S.directives[i]) : i \in 1..Len(S.directives)}]
 
+\* ---- SelfContained: every type a result refers to (at the bottom of a type reference, as interface, possible type,
+\* root type or in a directive argument) is one of the types it lists - otherwise no client can rebuild the schema
+RECURSIVE RefName(_)
+RefName(r) == IF r.ofType = Nul THEN r.name ELSE RefName(r.ofType)
+ListOf(x) == IF x = Nul THEN <<>> ELSE x.list
+ArgNames(args) == {RefName(args[k].type) : k \in 1..Len(args)}
+TypeRefs(t) ==
+  LET fs == ListOf(t.fields) ifs == ListOf(t.inputFields) its == ListOf(t.interfaces) pts == ListOf(t.possibleTypes) IN
+  {RefName(fs[k].type) : k \in 1..Len(fs)} \cup UNION {ArgNames(fs[k].args) : k \in 1..Len(fs)}
+  \cup {RefName(ifs[k].type) : k \in 1..Len(ifs)} \cup {its[k].name : k \in 1..Len(its)} \cup {pts[k].name : k \in 1..Len(pts)}
+Referenced(full) ==
+  UNION {TypeRefs(full.types[k]) : k \in 1..Len(full.types)} \cup UNION {ArgNames(full.directives[k].args) : k \in 1..Len(full.directives)}
+  \cup {r.name : r \in {full.queryType, full.mutationType, full.subscriptionType} \ {Nul}}
+Listed(full) == {full.types[k].name : k \in 1..Len(full.types)}
+SelfContained(full) == Referenced(full) \subseteq Listed(full)
+
 \* ---- Project: the full result minus exactly what the switched-off options omit ----------------
 Drop(r, keys) == [k \in DOMAIN r \ keys |-> r[k]]
 PIV(iv, o) == Drop(iv, (IF o.descriptions THEN {} ELSE {"description"}) \cup (IF o.inputDeprecation THEN {} ELSE {"isDeprecated", "deprecationReason"}))
